@@ -13,7 +13,7 @@
    The IP write model is the behaviour after fixes/C13-ip-put-listener-status-compare.patch;
    [write_unrepaired_refuted] keeps the witness for the code before it. *)
 From Coq Require Import List NArith ZArith Arith Bool Lia.
-From AHK Require Import Lib.Res Model.CharIO Proofs.CharIO Proofs.CharIOThm.
+From AHK Require Import Lib.Res Model.CharIO Model.CharIOEvents Proofs.CharIO Proofs.CharIOThm Proofs.CharIOEvents.
 Import ListNotations.
 
 (* ------------------------------------------------------------------ reads (IP) *)
@@ -248,6 +248,74 @@ Example c13_read_nonvacuous :
   lookup (3%N, 1%N) out = None.
 Proof. cbv zeta. vm_compute. repeat split. Qed.
 
+(* ------------------------------------------------------------------ listener call log: exactly once, in order
+   (Model/CharIOEvents.v: listener_events lu = the calls made for the final update dict - one call
+   with the whole dict, none when it is empty; deliveries k evs = how often listeners are told a
+   value for k; kcount k m = pairs of m with key k; subseq = order-preserving sub-list) *)
+
+(* IP: at most one call, never an empty one, and every id is delivered exactly once when it was
+   written, is readable and was not rejected - and not at all otherwise *)
+Theorem ip_listener_exactly_once : forall rd reqs r rs lu,
+    ip_put rd reqs r = Ok (rs, lu) ->
+    length (listener_events lu) <= 1 /\ ~ In [] (listener_events lu) /\
+    forall k, deliveries k (listener_events lu) =
+              if rd k && negb (rejectsb (reply_entries r) k) && requested reqs k then 1 else 0.
+Proof. exact ip_exactly_once_thm. Qed.
+
+(* the returned status dict and the update dict are dicts: no key twice *)
+Theorem ip_result_keys_unique : forall rd reqs r rs lu,
+    ip_put rd reqs r = Ok (rs, lu) -> forall k, kcount k rs <= 1 /\ kcount k lu <= 1.
+Proof. exact ip_result_keys_unique_thm. Qed.
+
+Theorem coap_listener_exactly_once : forall rd reqs rs out lu,
+    coap_put rd reqs rs = Ok (out, lu) ->
+    length (listener_events lu) <= 1 /\ ~ In [] (listener_events lu) /\
+    forall k, deliveries k (listener_events lu) =
+              if rd k && negb (any_paired_status (map fst reqs) rs k) && requested reqs k then 1 else 0.
+Proof. exact coap_exactly_once_thm. Qed.
+
+(* BLE: one call per request item that was sent, accepted (it lies before the first rejection)
+   and is readable - a repeated id is announced once per accepted write of it -, in request
+   order; when the call returns, over all items *)
+Theorem ble_listener_exactly_once_in_order : forall perm rd items,
+    (forall k, kcount k (fst (ble_put perm rd items)) =
+               length (ble_announced perm rd k (ble_prefix perm items))) /\
+    subseq (fst (ble_put perm rd items)) (map (fun it => (b_key it, b_val it)) items) /\
+    (forall rs, snd (ble_put perm rd items) = Ok rs ->
+       forall k, kcount k (fst (ble_put perm rd items)) = length (ble_announced perm rd k items)).
+Proof. exact ble_exactly_once_thm. Qed.
+
+(* ------------------------------------------------------------------ request-wide write error
+   a non-empty write reply without a "characteristics" list (e.g. {"status": -70407} on a 4xx/5xx)
+   carries no per-characteristic verdict: the call fails, so nothing is presented as written;
+   conversely a call that returns had a verdict list whose entries all carry a status *)
+Theorem write_without_list_fails : forall rd reqs, ip_put rd reqs WNoList = Crash.
+Proof. exact ip_nolist_fails_thm. Qed.
+Theorem write_returns_only_with_verdicts : forall rd reqs r rs lu,
+    ip_put rd reqs r = Ok (rs, lu) -> r = W204 \/ exists es, r = W207 es /\ forallb has_status es = true.
+Proof. exact ip_ok_has_verdicts_thm. Qed.
+
+(* non-vacuity: a repeated request id (last value wins, delivered once), a rejected and a
+   write-only id (delivered 0 times); BLE: the same id written twice is announced twice, in order *)
+Example c13_events_nonvacuous :
+  let rd := fun k : cid => negb (cid_eqb k (1%N, 11%N)) in
+  let reqs := [((1%N, 10%N), 5%Z); ((1%N, 11%N), 6%Z); ((2%N, 10%N), 7%Z); ((1%N, 10%N), 9%Z)] in
+  let es := [Entry 2 10 (Some 70410%Z) None; Entry 1 10 (Some 0%Z) None] in
+  exists rs lu, ip_put rd reqs (W207 es) = Ok (rs, lu) /\
+    listener_events lu = [[((1%N, 10%N), 9%Z)]] /\
+    deliveries (1%N, 10%N) (listener_events lu) = 1 /\
+    deliveries (1%N, 11%N) (listener_events lu) = 0 /\
+    deliveries (2%N, 10%N) (listener_events lu) = 0.
+Proof. cbv zeta. eexists. eexists. split; [vm_compute; reflexivity|]. repeat split. Qed.
+Example c13_ble_events_nonvacuous :
+  let perm := fun i : N => if (i =? 12)%N then BReadOnly else BWrite in
+  let items := [mk_bitem (1%N, 10%N) 5 0 0; mk_bitem (1%N, 12%N) 6 0 0; mk_bitem (1%N, 10%N) 7 0 0;
+                mk_bitem (1%N, 11%N) 8 3 0; mk_bitem (1%N, 10%N) 9 0 0] in
+  fst (ble_put perm (fun _ => true) items) = [((1%N, 10%N), 5%Z); ((1%N, 10%N), 7%Z)] /\
+  snd (ble_put perm (fun _ => true) items) = Err (PduStatusError 3) /\
+  kcount (1%N, 10%N) (fst (ble_put perm (fun _ => true) items)) = 2.
+Proof. cbv zeta. vm_compute. repeat split. Qed.
+
 Print Assumptions read_faithful.
 Print Assumptions ip_get_faithful.
 Print Assumptions read_nothing_invented.
@@ -274,3 +342,9 @@ Print Assumptions ble_write_never_hides_rejection.
 Print Assumptions ble_write_no_false_rejection.
 Print Assumptions ble_listeners_exactly_accepted_readable.
 Print Assumptions ble_prefix_is_accepted_prefix.
+Print Assumptions ip_listener_exactly_once.
+Print Assumptions ip_result_keys_unique.
+Print Assumptions coap_listener_exactly_once.
+Print Assumptions ble_listener_exactly_once_in_order.
+Print Assumptions write_without_list_fails.
+Print Assumptions write_returns_only_with_verdicts.
